@@ -5,9 +5,30 @@
 #![allow(unused, static_mut_refs, clippy::all)]
 
 pub mod common;
+pub mod q;
 #[cfg(kani)]
 mod c15;
 #[cfg(kani)]
 mod c02;
 #[cfg(kani)]
 mod c16;
+#[cfg(kani)]
+mod c13;
+#[cfg(kani)]
+mod c04;
+#[cfg(kani)]
+mod c05;
+#[cfg(kani)]
+mod c09;
+#[cfg(kani)]
+mod c11;
+#[cfg(kani)]
+mod c12;
+#[cfg(kani)]
+mod c14;
+#[cfg(kani)]
+mod c06;
+#[cfg(kani)]
+mod c07;
+#[cfg(kani)]
+mod c10;
